@@ -30,6 +30,9 @@ type c02Action struct {
 	Fail         bool  `json:"persist_fails,omitempty"`
 	FailAfter    int   `json:"persist_fails_after_bytes,omitempty"`
 	ApplyBetween int   `json:"applies_between_snapshot_and_persist,omitempty"`
+	// restart: how many of the previously applied entries raft has re-applied when the
+	// next action happens (-1: all of them); the rest follows with later apply actions
+	ReplayTo int `json:"replayed_before_next_action"`
 }
 
 type c02Case struct {
@@ -70,7 +73,10 @@ type c02Run struct {
 	stored  []uint64 // model of the node's log copy (indexes, ascending)
 	snaps   []c02Snap
 	lastT   int64
-	labels  map[string]bool
+	// staleMax: the on-disk log copy of a restarted process still holds entries up to this
+	// index from the previous run (they are overwritten as raft re-applies them)
+	stale  map[uint64]bool
+	labels map[string]bool
 	rec     *vh.Recorder
 	// next action source
 	rt  *rapid.T
@@ -81,6 +87,7 @@ func (r *c02Run) applyOne() {
 	l := r.logs[r.applied]
 	r.env.fsm.Apply(l)
 	r.stored = append(r.stored, l.Index)
+	delete(r.stale, l.Index)
 	r.applied++
 }
 
@@ -155,6 +162,15 @@ func (r *c02Run) compare(what string) *vh.Failure {
 	if len(r.stored) > 0 {
 		wf, wl = r.stored[0], r.stored[len(r.stored)-1]
 	}
+	// entries of the previous run that raft has not re-applied yet are still on disk
+	for k := r.applied; k < len(r.logs); k++ {
+		if idx := r.logs[k].Index; r.stale[idx] {
+			if wf == 0 {
+				wf = idx
+			}
+			wl = idx
+		}
+	}
 	if first != wf || last != wl {
 		return vh.Failf("first-last-index-differ", "%s: log copy spans [%d,%d], expected [%d,%d]", what, first, last, wf, wl)
 	}
@@ -172,7 +188,7 @@ func sameLogPayload(a, b []byte, idx uint64) bool {
 	return string(ma) == string(mb)
 }
 
-func (r *c02Run) restoreLatest(what string) *vh.Failure {
+func (r *c02Run) restoreLatest(what string, upTo int) *vh.Failure {
 	snaps, err := r.env.fss.List()
 	if err != nil || len(snaps) == 0 {
 		return vh.Failf("harness", "no snapshot to restore: %v", err)
@@ -194,13 +210,22 @@ func (r *c02Run) restoreLatest(what string) *vh.Failure {
 		return vh.Failf("harness", "snapshot %d unknown to the model", snaps[0].Index)
 	}
 	r.stored = append([]uint64(nil), sn.stored...)
+	r.stale = nil // Restore recreates the log copy
 	// raft replays the log entries after the snapshot
-	for k := 0; k < r.applied; k++ {
-		if r.logs[k].Index > sn.index {
-			r.env.fsm.Apply(r.logs[k])
-			r.stored = append(r.stored, r.logs[k].Index)
+	pos := 0
+	for k := range r.logs {
+		if r.logs[k].Index <= sn.index {
+			pos = k + 1
 		}
 	}
+	if upTo < pos {
+		upTo = pos
+	}
+	for k := pos; k < upTo; k++ {
+		r.env.fsm.Apply(r.logs[k])
+		r.stored = append(r.stored, r.logs[k].Index)
+	}
+	r.applied = upTo
 	return nil
 }
 
@@ -230,7 +255,7 @@ func (r *c02Run) step(a c02Action) *vh.Failure {
 		snap, err := r.env.fsm.Snapshot()
 		if err != nil {
 			if len(r.stored) == 0 {
-				return nil // nothing stored: Snapshot() legitimately refuses
+				return nil // nothing (re-)applied and stored: Snapshot() legitimately refuses
 			}
 			return vh.Failf("snapshot-error", "Snapshot() with %d stored entries failed: %v", len(r.stored), err)
 		}
@@ -282,24 +307,37 @@ func (r *c02Run) step(a c02Action) *vh.Failure {
 			return nil
 		}
 		r.labels["c02:restore"] = true
-		if f := r.restoreLatest("restore"); f != nil {
+		if f := r.restoreLatest("restore", r.applied); f != nil {
 			return f
 		}
 		return r.compare("after restore of the newest snapshot")
 	case "restart":
 		r.labels["c02:restart"] = true
+		target := r.applied
+		if a.ReplayTo >= 0 && a.ReplayTo < target {
+			target = a.ReplayTo
+			r.labels["c02:restart-with-partial-replay"] = true
+		}
 		r.env.freshFSM()
 		if len(r.snaps) > 0 {
-			if f := r.restoreLatest("restart"); f != nil {
+			if f := r.restoreLatest("restart", target); f != nil {
 				return f
 			}
 		} else {
-			// no snapshot: raft replays the whole log
+			// no snapshot: raft replays the log from the start; the log copy on disk is the previous run's
+			if r.stale == nil {
+				r.stale = map[uint64]bool{}
+			}
+			for _, idx := range r.stored {
+				r.stale[idx] = true
+			}
 			r.stored = nil
-			for k := 0; k < r.applied; k++ {
+			for k := 0; k < target; k++ {
 				r.env.fsm.Apply(r.logs[k])
 				r.stored = append(r.stored, r.logs[k].Index)
+				delete(r.stale, r.logs[k].Index)
 			}
+			r.applied = target
 		}
 		return r.compare("after restart")
 	}
@@ -368,7 +406,10 @@ func (r *c02Run) nextAction() (c02Action, bool) {
 	case 2:
 		a = c02Action{Kind: "restore"}
 	default:
-		a = c02Action{Kind: "restart"}
+		a = c02Action{Kind: "restart", ReplayTo: -1}
+		if r.applied > 0 && rapid.IntRange(0, 2).Draw(rt, "partialreplay") == 0 {
+			a.ReplayTo = rapid.IntRange(0, r.applied).Draw(rt, "replayto")
+		}
 	}
 	r.c.Actions = append(r.c.Actions, a)
 	return a, true
@@ -407,7 +448,13 @@ func c02Execute(c *c02Case, rt *rapid.T, base string, rec *vh.Recorder) (fail *v
 		if !ok {
 			break
 		}
-		if f := r.step(a); f != nil {
+		f := r.step(a)
+		if os.Getenv("VERIF_DEBUG") != "" {
+			first, _ := r.env.fsm.ircstore.FirstIndex()
+			last, _ := r.env.fsm.ircstore.LastIndex()
+			fmt.Fprintf(os.Stderr, "DEBUG %+v -> applied=%d stored=%v stale=%v physical=[%d,%d] snaps=%+v\n", a, r.applied, r.stored, r.stale, first, last, r.snaps)
+		}
+		if f != nil {
 			if f.Signature == "harness" {
 				return f, keys2(r.labels), false
 			}
